@@ -3,6 +3,7 @@ package j5convert
 import (
 	"errors"
 	"fmt"
+	"math"
 	"unicode"
 
 	"buf.build/gen/go/bufbuild/protovalidate/protocolbuffers/go/buf/validate"
@@ -470,6 +471,10 @@ func buildField(ww *conversionVisitor, node sourcewalk.FieldNode) (*descriptorpb
 				return nil, fmt.Errorf("integer rules: exclusive maximum requires maximum to be set")
 			}
 
+			if err := checkIntegerBounds(st.Integer.Format, st.Integer.Rules); err != nil {
+				return nil, err
+			}
+
 			rules := &validate.FieldConstraints{}
 
 			switch st.Integer.Format {
@@ -814,6 +819,36 @@ func buildField(ww *conversionVisitor, node sourcewalk.FieldNode) (*descriptorpb
 		return nil, fmt.Errorf("unknown schema type %T", st)
 	}
 
+}
+
+// checkIntegerBounds rejects bounds which the validation rule cannot express:
+// a bound outside the range of the format would be truncated by the conversion
+// to the rule's integer type, and buf.validate reads a minimum above the maximum
+// as an excluded range, not as an empty one.
+func checkIntegerBounds(format schema_j5pb.IntegerField_Format, rules *schema_j5pb.IntegerField_Rules) error {
+	var lo, hi int64
+	switch format {
+	case schema_j5pb.IntegerField_FORMAT_INT32:
+		lo, hi = math.MinInt32, math.MaxInt32
+	case schema_j5pb.IntegerField_FORMAT_INT64:
+		lo, hi = math.MinInt64, math.MaxInt64
+	case schema_j5pb.IntegerField_FORMAT_UINT32:
+		lo, hi = 0, math.MaxUint32
+	case schema_j5pb.IntegerField_FORMAT_UINT64:
+		lo, hi = 0, math.MaxInt64
+	default:
+		return nil
+	}
+	if rules.Minimum != nil && (*rules.Minimum < lo || *rules.Minimum > hi) {
+		return fmt.Errorf("integer rules: minimum %d is out of range for %s", *rules.Minimum, format)
+	}
+	if rules.Maximum != nil && (*rules.Maximum < lo || *rules.Maximum > hi) {
+		return fmt.Errorf("integer rules: maximum %d is out of range for %s", *rules.Maximum, format)
+	}
+	if rules.Minimum != nil && rules.Maximum != nil && *rules.Minimum > *rules.Maximum {
+		return fmt.Errorf("integer rules: minimum %d is greater than maximum %d", *rules.Minimum, *rules.Maximum)
+	}
+	return nil
 }
 
 // Copies the J5 extension object to the equivalent protoreflect extension type
